@@ -250,3 +250,25 @@ hfunc(SIMF, 'Simulator.topologicalSort', ['self'], props=('C04',),
                   2: 'implies(not anyChange, %s)' % _STRICT('_i2')},
       # normal return => every block sits after everything it depends on (strictly; a block reading its own output is not excluded: see known finding)
       ensures=[_STRICT('len(self.propagatables)')])
+
+
+# ------------------------------------------------------------------------------------------------- C15
+WF = 'py4hw/logic/simulation.py'
+callee('m:Waveform.getwire', args=['x'], returns=True, ensures=['result == wireof(x)'])
+callee('m:get', args=[], returns=True, ensures=['result == self.value'])
+_U = 'self.uniqueWires'
+_LIST = lambda j: 'self.data[wireof(%s[%s])]' % (_U, j)
+hfunc(WF, 'Waveform.clock', ['self'], props=('C15',), uses=['m:Waveform.getwire', 'm:get'],
+      requires=[  # the watch list after de-duplication: distinct wires, each with its own sample list (established by __init__)
+          'forall(lambda j: implies(0 <= j and j < len(%s), not isinstance(%s[j], FieldInspector) and not isinstance(%s[j], ValueFormatter)))' % (_U, _U, _U),
+          'forall(lambda j: implies(0 <= j and j < len(%s), wireof(%s[j]) in self.data and cidx(self, wireof(%s[j])) == j))' % (_U, _U, _U),
+          'forall(lambda i, j: implies(0 <= i and i < j and j < len(%s), %s != %s))' % (_U, _LIST('i'), _LIST('j'))],
+      modifies=['el:#items', 'len:#items'],
+      invariants={0: 'forall(lambda j: implies(0 <= j and j < _i0, len(items(%s)) == old(len(items(%s))) + 1 and items(%s)[old(len(items(%s)))] == wireof(%s[j]).value)) and '
+                     'forall(lambda j: implies(_i0 <= j and j < len(%s), len(items(%s)) == old(len(items(%s))))) and '
+                     'forall(lambda j, k: implies(0 <= j and j < len(%s) and 0 <= k and k < old(len(items(%s))), items(%s)[k] == old(items(%s)[k])))'
+                     % (_LIST('j'), _LIST('j'), _LIST('j'), _LIST('j'), _U, _U, _LIST('j'), _LIST('j'), _U, _LIST('j'), _LIST('j'), _LIST('j'))},
+      # exactly one sample per unique watched wire, equal to the value the wire carries when clock() runs (the pre-edge value, by C05); earlier samples untouched
+      ensures=['forall(lambda j: implies(0 <= j and j < len(%s), len(items(%s)) == old(len(items(%s))) + 1 and items(%s)[old(len(items(%s)))] == wireof(%s[j]).value))'
+               % (_U, _LIST('j'), _LIST('j'), _LIST('j'), _LIST('j'), _U),
+               'forall(lambda j, k: implies(0 <= j and j < len(%s) and 0 <= k and k < old(len(items(%s))), items(%s)[k] == old(items(%s)[k])))' % (_U, _LIST('j'), _LIST('j'), _LIST('j'))])
